@@ -167,30 +167,6 @@ theorem C28_edge_user_style_wins (rules : Option Rules) (e : EdgeIn) :
 
 /-! ### one-to-one -/
 
-/-- **export_bijection**: `Export` produces exactly one shape per object, in order, carrying the object's absolute
-    ID, and exactly one connection per edge, carrying the edge's ID and the absolute IDs of its end points. -/
-theorem export_bijection (rules : Option Rules) (g : Graph) :
-    (exportShapes rules g).length = g.objects.size ∧
-    (∀ i o, g.objects[i]? = some o → (exportShapes rules g)[i]? = some (toShape rules g i o)) ∧
-    (∀ i o, g.objects[i]? = some o → ((exportShapes rules g)[i]?).map (·.id) = some (g.absID i)) ∧
-    (exportConns rules g).length = g.edges.size ∧
-    (∀ (k : Nat) (e : EdgeIn), g.edges[k]? = some e →
-      ((exportConns rules g)[k]?).map (fun (c : ConnOut) => (c.src, c.dst)) = some (g.absID e.src, g.absID e.dst)) := by
-  have hget : ∀ i o, g.objects[i]? = some o → (exportShapes rules g)[i]? = some (toShape rules g i o) := by
-    intro i o h
-    unfold exportShapes
-    rw [List.getElem?_map, List.getElem?_zipIdx]
-    have : g.objects.toList[i]? = some o := by simpa using h
-    simp [this]
-  refine ⟨by simp [exportShapes], hget, ?_, by simp [exportConns], ?_⟩
-  · intro i o h
-    rw [hget i o h]; rfl
-  · intro k e h
-    unfold exportConns
-    rw [List.getElem?_map]
-    have : g.edges.toList[k]? = some e := by simpa using h
-    simp [this, toConnection]
-
 /-- `AbsID` of a top-level object is its ID; of a child, the parent's `AbsID`, a dot, its ID -/
 theorem absID_step (objs : Array Obj) (fuel i : Nat) (o : Obj) (h : objs[i]? = some o) :
     absID objs (fuel + 1) i = match o.parent with
@@ -198,6 +174,88 @@ theorem absID_step (objs : Array Obj) (fuel i : Nat) (o : Obj) (h : objs[i]? = s
       | some p => (absID objs fuel p).map fun a => a ++ "." ++ o.id := by
   rw [absID, h]
   rfl
+
+theorem joinDots_snoc (a : List String) (x : String) (h : a ≠ []) : joinDots (a ++ [x]) = joinDots a ++ "." ++ x := by
+  induction a with
+  | nil => exact absurd rfl h
+  | cons b r ih =>
+    cases r with
+    | nil => simp [joinDots]
+    | cons c r' =>
+      have := ih (by simp)
+      simp only [List.cons_append, joinDots] at this ⊢
+      rw [this]
+      simp [String.append_assoc]
+
+theorem absIDArray_ne_nil (objs : Array Obj) (fuel i : Nat) (p : List String) (h : absIDArray objs fuel i = some p) : p ≠ [] := by
+  cases fuel with
+  | zero => simp [absIDArray] at h
+  | succ f =>
+    rw [absIDArray] at h
+    cases ho : objs[i]? with
+    | none => simp [ho] at h
+    | some o =>
+      rw [ho] at h
+      simp only [] at h
+      cases hp : o.parent with
+      | none => simp [hp] at h; subst h; simp
+      | some q =>
+        simp only [hp] at h
+        cases hq : absIDArray objs f q with
+        | none => simp [hq] at h
+        | some a => simp [hq] at h; subst h; simp
+
+/-- the dotted chain of IDs (`strings.Join(AbsIDArray, ".")`, what `Edge.AbsID` and the end point fields print) is the
+    object's `AbsID`, i.e. the ID of the shape exported for it -/
+theorem joinDots_absIDArray (objs : Array Obj) (fuel i : Nat) :
+    (absIDArray objs fuel i).map joinDots = absID objs fuel i := by
+  induction fuel generalizing i with
+  | zero => simp [absIDArray, absID]
+  | succ f ih =>
+    rw [absIDArray, absID]
+    cases ho : objs[i]? with
+    | none => rfl
+    | some o =>
+      simp only []
+      cases hp : o.parent with
+      | none => simp [joinDots]
+      | some q =>
+        simp only []
+        rw [← ih q]
+        cases hq : absIDArray objs f q with
+        | none => rfl
+        | some a =>
+          have hne := absIDArray_ne_nil objs f q a hq
+          simp [joinDots_snoc a o.id hne]
+
+/-- **export_bijection**: `Export` produces exactly one shape per object, in order, carrying the object's absolute
+    ID, and exactly one connection per edge, in order, whose `Src` / `Dst` are the dotted ID chains of its end points —
+    for an end point that is an object of the graph that is exactly the ID of the shape exported for it. -/
+theorem export_bijection (rules : Option Rules) (g : Graph) :
+    (exportShapes rules g).length = g.objects.size ∧
+    (∀ i o, g.objects[i]? = some o → (exportShapes rules g)[i]? = some (toShape rules g i o)) ∧
+    (∀ i o, g.objects[i]? = some o → ((exportShapes rules g)[i]?).map (·.id) = some (g.absID i)) ∧
+    (exportConns rules g).length = g.edges.size ∧
+    (∀ (k : Nat) (e : EdgeIn), g.edges[k]? = some e →
+      ((exportConns rules g)[k]?).map (fun (c : ConnOut) => (c.src, c.dst))
+        = some (g.endpointID e.src e.srcPath e.srcTop, g.endpointID e.dst e.dstPath e.dstTop)) ∧
+    (∀ (i : Nat) (own : List String) (top : String), g.endpointID (some i) own top = g.absID i) := by
+  have hget : ∀ i o, g.objects[i]? = some o → (exportShapes rules g)[i]? = some (toShape rules g i o) := by
+    intro i o h
+    unfold exportShapes
+    rw [List.getElem?_map, List.getElem?_zipIdx]
+    have : g.objects.toList[i]? = some o := by simpa using h
+    simp [this]
+  refine ⟨by simp [exportShapes], hget, ?_, by simp [exportConns], ?_, ?_⟩
+  · intro i o h
+    rw [hget i o h]; rfl
+  · intro k e h
+    unfold exportConns
+    rw [List.getElem?_map]
+    have : g.edges.toList[k]? = some e := by simpa using h
+    simp [this, toConnection]
+  · intro i own top
+    exact joinDots_absIDArray g.objects _ i
 
 /-! ### the catalog -/
 
